@@ -574,9 +574,14 @@ class CodeGenMapper(Mapper[ImplementedResult, Never, [CodeGenState]]):
                 new_bounds_list: list[ArithmeticExpression] = []
                 for bound_prefix, bound, loopy_bound in zip(
                         bound_prefixes, bounds, loopy_bounds, strict=True):
-                    # For an empty result no store is emitted (and *inames*
-                    # have no domain), so there is nothing to hoist into.
-                    if not is_quasi_affine(loopy_bound) and not result_is_empty:
+                    if not is_quasi_affine(loopy_bound) and result_is_empty:
+                        # For an empty result no store is emitted (and *inames*
+                        # have no domain), so there is nothing to hoist into,
+                        # and the bound cannot stay in the reduction's domain
+                        # either. No element is ever computed: an empty
+                        # reduction domain will do.
+                        new_bound = 0
+                    elif not is_quasi_affine(loopy_bound):
                         unique_name = var_to_reduction_unique_name[var_name]
                         bound_name = state.var_name_gen(
                                         f"{unique_name}_{bound_prefix}bound")
